@@ -290,6 +290,8 @@ def step (st : St) (line : String) : St × String :=
     | ["rreadall", rid, _] => ["rreadall", rid]
     -- read_exact of N bytes that are there is one read of N bytes
     | ["rreadexact", rid, n] => ["rread", rid, n]
+    -- the removal builder without `remove_fully(true)` is a plain removal
+    | ["remove_opts", f, c, k, _] => ["remove", f, c, k]
     | ["lreadexact", lid, n] => ["lread", lid, n]
     | ["lreadall", lid] => ["lread", lid, "67108864"]
     | ["lreadall", lid, _] => ["lread", lid, "67108864"]
